@@ -412,6 +412,11 @@ def generate_and_run(rng, profile, max_client_ops=None):
                     and all(k >= 0 and kinds[k] != "nobackend" for k in op[1]):
                 if rng.random() < 0.4 and len(op[1]) >= 2:
                     op[1][-1] = op[1][0]          # the same URI requested twice
+                if rng.random() < 0.4:
+                    # a URI the library resolves to several tracks, or to none
+                    ok_tracks = [k for k in range(NTRACKS) if kinds[k] != "nobackend"]
+                    j = rng.randrange(len(op[1]))
+                    op[1][j] = [rng.choice(ok_tracks) for _ in range(rng.choice([0, 0, 2, 3]))] if ok_tracks else []
                 op = op + ["uris"]
             if op[0] == "indexof" and rng.random() < 0.75:
                 ents = runner.core.tracklist.get_tl_tracks()
